@@ -361,3 +361,30 @@ fn wind_then_unwind_restores_the_spendable_set() {
         }
     }
 }
+
+/// C01: an output is not spent twice inside one transaction — a transaction naming the same value-carrying output twice
+/// (its inputs would count double) is refused by Transaction::validate, which is what the pool and the verification
+/// thread rely on
+#[tokio::test]
+#[serial_test::serial]
+async fn duplicate_input_inside_a_transaction_is_refused() {
+    use crate::core::consensus::wallet::Wallet;
+    let (pk, sk) = crate::core::util::crypto::generate_keys();
+    let wallet_lock = std::sync::Arc::new(tokio::sync::RwLock::new(Wallet::new(sk, pk)));
+    let mut blockchain = Blockchain::new(wallet_lock, 1_000, 0, 60);
+    for copies in 2..4usize {
+        for lead_zero in 0..2usize {
+            let mut tx = Transaction::default();
+            for _ in 0..lead_zero { let mut z = Slip::default(); z.public_key = pk; tx.add_from_slip(z); }
+            let mut input = Slip::default(); input.public_key = pk; input.amount = 500; input.block_id = 3; input.tx_ordinal = (copies * 2 + lead_zero) as u64; input.slip_index = 0;
+            for _ in 0..copies { tx.add_from_slip(input.clone()); }
+            let mut o = Slip::default(); o.public_key = pk; o.amount = 500 * copies as u64; tx.add_to_slip(o);
+            tx.sign(&sk);
+            tx.generate(&pk, 0, 8);
+            blockchain.utxoset.insert(tx.from[lead_zero].utxoset_key, true);
+            if tx.validate(&blockchain.utxoset, &blockchain, true) {
+                witness(format!("a transaction that names the same unspent 500-nolan output {} times as input (behind {} zero-amount input(s)) and pays out {} is accepted by Transaction::validate: the output is counted {} times", copies, lead_zero, 500 * copies, copies));
+            }
+        }
+    }
+}
